@@ -311,6 +311,11 @@ def gen_template(rng, focus="values", findings=False):
     conds = gen_conditions(rng, g)
     d = rng.choice([1, 2, 2, 3])
     resources = {f"R{i + 1}": gen_resource(rng, g, d) for i in range(rng.randint(1, 4))}
+    if rng.random() < 0.08:
+        # a logical id spelled like an intrinsic function, sometimes the only resource (seeded change C14-r4m1)
+        keep = rng.choice(list(resources))
+        odd = rng.choice(["Ref", "Condition", "GETATT", "Type"])
+        resources = {odd: resources[keep]} if rng.random() < 0.5 else {**{k: v for k, v in resources.items() if k != keep}, odd: resources[keep]}
     t = {"AWSTemplateFormatVersion": "2010-09-09", "Resources": resources}
     if decls:
         t["Parameters"] = decls
